@@ -6,8 +6,22 @@ From SR Require Import Base.PathB Base.Ext Model.Recon Model.LcaRec
 Import ListNotations.
 Local Open Scope Z_scope.
 
-(* every internal node is mapped to the LCA (longest common prefix of the root paths)
-   of the species of the leaves below it *)
+(* every node (Proofs/LcaNodeProofs.v; [onode_at O p] / [rnode_at r p]: the node at position [p],
+   [false] = first child): the node of the LCA reconciliation at the position of any node [o] of the
+   object tree exists and is mapped to the LCA (longest common prefix of the root paths) of the species
+   of the leaves below [o]; a leaf keeps its species ([lcp_list [sp] = sp]); and the reconciliation has
+   no other node *)
+From SR Require Import Proofs.LcaNodeProofs.
+Theorem C07_lca_mapping_every_node : forall O p o, onode_at O p = Some o ->
+  exists r, rnode_at (lca_rec O) p = Some r /\ root r = lcp_list (leaf_species o).
+Proof. exact lca_mapping_every_node. Qed.
+Print Assumptions C07_lca_mapping_every_node.
+
+Theorem C07_lca_same_nodes : forall p O, rnode_at (lca_rec O) p = None <-> onode_at O p = None.
+Proof. exact rnode_at_shape. Qed.
+Print Assumptions C07_lca_same_nodes.
+
+(* the instance [p = []]: the root *)
 Theorem C07_lca_mapping : forall O, root (lca_rec O) = lcp_list (leaf_species O).
 Proof. exact lca_root. Qed.
 Print Assumptions C07_lca_mapping.
@@ -57,5 +71,7 @@ Example C07_example :
                  (ONode (OLeaf [false; true] []) (OLeaf [false; false] [])) in
   let c := {| c_spe := 0; c_dup := 1; c_hgt := PInf; c_floss := 1; c_sloss := 1 |} in
   leaves_ok S O /\ root (lca_rec O) = [] /\ cost c O (lca_rec O) = Fin 4 /\
+  onode_at O [true] = Some (ONode (OLeaf [false; true] []) (OLeaf [false; false] [])) /\
+  option_map root (rnode_at (lca_rec O) [true]) = Some [false] /\
   forallb (fun r => ext_leb (cost c O (lca_rec O)) (cost c O r)) (all_recs S O) = true.
 Proof. vm_compute. repeat split. Qed.
